@@ -163,6 +163,10 @@ func vErrClass(err error) string {
 		return "err:exceeds"
 	case strings.Contains(err.Error(), "blob: expected"):
 		return "err:sizemismatch"
+	case strings.Contains(err.Error(), "file too large"): // proposed_fixes/C08-F28.patch
+		return "err:toolarge"
+	case strings.Contains(err.Error(), "negative size"): // proposed_fixes/C08-F29.patch
+		return "err:negsize"
 	}
 	return "err:other:" + strings.ReplaceAll(err.Error(), " ", "_")
 }
@@ -196,10 +200,15 @@ type vOp struct {
 	scen        bool // first op of a directed scenario (generator bookkeeping only)
 	hook        bool // link only: fire Resolve(name) from testHookBeforeFinalWrite (between verified copy and rename)
 	s           vScript
+	data        []byte // edit: the bytes written to the manifest file behind the cache's back
 }
 
 func (o vOp) String() string {
 	switch o.kind {
+	case "putneg":
+		return fmt.Sprintf("putneg %s %s", vHexD(o.d), o.s)
+	case "edit":
+		return fmt.Sprintf("edit %s %s", zzverif.Hex([]byte(o.name)), zzverif.Hex(o.data))
 	case "put":
 		return fmt.Sprintf("put %s %d %s", vHexD(o.d), o.size, o.s)
 	case "import":
@@ -267,6 +276,10 @@ func (p *vToks) op() vOp {
 		o.name = string(zzverif.Unhex(p.next()))
 	case "chunk":
 		o.d, o.size, o.start, o.stop, o.cd, o.s = vUnhexD(p.next()), p.int(), p.int(), p.int(), vUnhexD(p.next()), p.script()
+	case "putneg":
+		o.d, o.size, o.s = vUnhexD(p.next()), -1, p.script()
+	case "edit":
+		o.name, o.data = string(zzverif.Unhex(p.next())), zzverif.Unhex(p.next())
 	default:
 		panic("verif: bad op " + o.kind)
 	}
@@ -281,8 +294,19 @@ func vExec(c *DiskCache, o vOp) (res string, dg *Digest) {
 		}
 	}()
 	switch o.kind {
-	case "put":
+	case "put", "putneg":
 		return vErrClass(c.Put(o.d, newVReader(o.s), o.size)), nil
+	case "edit":
+		// a manifest written behind the cache's back, under the exact spelling of the name (hand edit / legacy cache)
+		np, err := nameToPath(o.name)
+		if err != nil {
+			return vErrClass(err), nil
+		}
+		file := filepath.Join(c.dir, "manifests", np)
+		if err := os.MkdirAll(filepath.Dir(file), 0o777); err != nil {
+			return vErrClass(err), nil
+		}
+		return vErrClass(os.WriteFile(file, o.data, 0o666)), nil
 	case "import":
 		d, err := c.Import(newVReader(o.s), o.size)
 		if err != nil {
@@ -366,6 +390,7 @@ type vHist struct {
 	linked     map[string]Digest         // lower-cased name -> digest of the last acknowledged Link (cleared by Unlink / refused Link)
 	linkedWhy  map[string]string         // classification of that Link by the driver's own observations
 	acked      map[Digest]bool           // a non-empty store of d was acknowledged and no later Put/chunk of d failed
+	handTwins  map[string]bool           // lower-cased manifest path -> an `edit` made a second spelling of it exist (by design the first in glob order wins)
 }
 
 // vSnap lists everything below the cache root: relative path -> "d" (directory) or "f:"+content.
@@ -408,7 +433,7 @@ func vBlobOfPath(rel string) (Digest, bool) {
 func (h *vHist) confine(step int, o vOp, dg *Digest, before, after map[string]string) {
 	allowedBlob := ""
 	switch o.kind {
-	case "put", "chunk":
+	case "put", "chunk", "putneg":
 		allowedBlob = "blobs/sha256-" + vHexD(o.d)
 	case "import", "resolve":
 		if dg != nil {
@@ -448,6 +473,8 @@ func (h *vHist) confine(step int, o vOp, dg *Digest, before, after map[string]st
 			depth := strings.Count(rest, "/") + 1
 			isDir := after[p] == "d" || before[p] == "d"
 			ok = ok || (rest != p && ((isDir && depth <= 3) || (!isDir && depth == 4)))
+		case "edit":
+			ok = true // the driver's own write
 		default:
 			ok = p == allowedBlob
 		}
@@ -544,7 +571,7 @@ func (h *vHist) run(ops []vOp) (results []string, keys map[Digest]bool) {
 	for i, o := range ops {
 		var target *Digest
 		switch o.kind {
-		case "put", "get", "link", "chunk":
+		case "put", "get", "link", "chunk", "putneg":
 			d := o.d
 			target = &d
 			keys[d] = true
@@ -596,6 +623,55 @@ func (h *vHist) run(ops []vOp) (results []string, keys map[Digest]bool) {
 		}
 		h.out.Count("op_" + o.kind)
 		h.out.Count("res_" + o.kind + "_" + vResClass(res))
+		// which branch of the model this operation is in, judged from the driver's own observations taken before the
+		// call (the check fails closed when a branch the theorems talk about is never exercised)
+		switch o.kind {
+		case "put", "chunk":
+			switch {
+			case beforeOK && int64(len(before)) == o.size:
+				h.out.Count("branch_" + o.kind + "_same_size_shortcut")
+			case beforeOK && int64(len(before)) > o.size:
+				h.out.Count("branch_" + o.kind + "_over_longer") // put: O_TRUNC
+			case beforeOK:
+				h.out.Count("branch_" + o.kind + "_over_shorter")
+			default:
+				h.out.Count("branch_" + o.kind + "_absent")
+			}
+			if o.size == 0 {
+				h.out.Count("branch_" + o.kind + "_size0")
+			}
+		case "link":
+			switch {
+			case res == "ok" && manBeforeOK && vDigestOf(manBefore) == o.d:
+				h.out.Count("branch_link_already_linked")
+			case res == "ok" && manBeforeOK:
+				h.out.Count("branch_link_replaces")
+			case res == "ok":
+				h.out.Count("branch_link_first")
+			case res == "err:notexist" && beforeOK && len(before) == 0:
+				h.out.Count("branch_link_zero_length_refused")
+			case res == "err:notexist" && !beforeOK:
+				h.out.Count("branch_link_blob_missing")
+			case manBeforeOK:
+				h.out.Count("branch_link_refused_keeps_old")
+			}
+		case "resolve":
+			if strings.Contains(o.name, "@") {
+				h.out.Count("branch_resolve_at_digest")
+			} else if dg != nil {
+				if _, ok := snapBefore[filepath.ToSlash(filepath.Join("blobs", "sha256-"+vHexD(*dg)))]; ok {
+					h.out.Count("branch_resolve_blob_existed")
+				} else {
+					h.out.Count("branch_resolve_creates_blob")
+				}
+			}
+		case "unlink":
+			if unlinkExisted != "" && res == "unlinked:true" {
+				if want, err := nameToPath(o.name); err == nil && filepath.ToSlash(filepath.Join("manifests", want)) != unlinkExisted {
+					h.out.Count("branch_unlink_other_spelling")
+				}
+			}
+		}
 		if strings.HasPrefix(res, "err:other") || strings.HasPrefix(res, "panic:") {
 			h.out.L2("unexpected-error", h.caseLine, fmt.Sprintf("step=%d op=%s res=%s", i, o.kind, res))
 		}
@@ -621,6 +697,39 @@ func (h *vHist) run(ops []vOp) (results []string, keys map[Digest]bool) {
 			} else {
 				h.acked[o.d] = false // a refused Put legitimately truncates the file
 			}
+		case "putneg":
+			// a negative size: no blob has it.  A refusal that empties the file is what a refused Put does
+			// (TestPut pins that); an answer "ok" acknowledges nothing, and must not cost an acknowledged blob:
+			// checkAcked reports that (finding F29)
+			switch {
+			case res == "ok" && beforeOK && len(before) > 0:
+				h.out.Count("branch_putneg_ok_over_file")
+			case res == "ok":
+				h.out.Count("branch_putneg_ok_no_file")
+			case res == "err:negsize":
+				h.out.Count("branch_putneg_refused")
+			default:
+				h.out.Count("branch_putneg_" + strings.TrimPrefix(res, "err:"))
+				h.acked[o.d] = false
+			}
+		case "edit":
+			delete(h.linked, h.linkKey(o.name))
+			if res == "ok" {
+				h.out.Count("branch_edit_written")
+				want, _ := nameToPath(o.name)
+				rel := filepath.ToSlash(filepath.Join("manifests", want))
+				ms, _ := fs.Glob(os.DirFS(h.dir), "manifests/*/*/*/*")
+				n := 0
+				for _, m := range ms {
+					if strings.EqualFold(m, rel) {
+						n++
+					}
+				}
+				if n > 1 {
+					h.handTwins[strings.ToLower(rel)] = true
+					h.out.Count("branch_edit_makes_case_twin")
+				}
+			}
 		case "import":
 			if dg != nil {
 				h.noteStored(*dg, o.size)
@@ -644,14 +753,15 @@ func (h *vHist) run(ops []vOp) (results []string, keys map[Digest]bool) {
 			// does not list it; the bool says whether something was removed
 			if want, nerr := nameToPath(o.name); nerr == nil && !strings.HasPrefix(res, "err:") && !strings.HasPrefix(res, "panic:") {
 				h.out.Count("l2_unlink_checked")
-				if still := h.findFold(o.name); still != "" {
+				twin := h.handTwins[strings.ToLower(filepath.ToSlash(filepath.Join("manifests", want)))]
+				if still := h.findFold(o.name); still != "" && !twin {
 					h.out.L2("unlink-leaves-link", h.caseLine, fmt.Sprintf("returned=%s existed-before=%q still=%q step=%d name=%s", res, unlinkExisted, still, i, o.name))
 				}
 				if (res == "unlinked:true") != (unlinkExisted != "") {
 					h.out.L2("unlink-wrong-bool", h.caseLine, fmt.Sprintf("returned=%s existed-before=%q step=%d name=%s", res, unlinkExisted, i, o.name))
 				}
 				for l, err := range h.c.Links() {
-					if err == nil && strings.EqualFold(l, pathToName(filepath.ToSlash(want))) {
+					if err == nil && !twin && strings.EqualFold(l, pathToName(filepath.ToSlash(want))) {
 						h.out.L2("unlink-leaves-link", h.caseLine, fmt.Sprintf("returned=%s Links-still-lists=%q step=%d name=%s", res, l, i, o.name))
 					}
 				}
@@ -706,6 +816,14 @@ func (h *vHist) run(ops []vOp) (results []string, keys map[Digest]bool) {
 		case "resolve":
 			if dg != nil && !strings.Contains(o.name, "@") {
 				// (E) Resolve returns the digest of exactly the bytes linked, and makes them a blob
+				if lim := vReadLimit(); manBeforeOK && len(manBefore) > lim && vDigestOf(manBefore[:lim]) == *dg {
+					// finding F28: a manifest longer than readAndSum's limit resolves to the digest of its prefix
+					h.out.L2("resolve-not-hash-of-file", h.caseLine, fmt.Sprintf("oversize-manifest size=%d read-limit=%d resolved=digest-of-prefix step=%d name=%s", len(manBefore), lim, i, o.name))
+					h.out.Count("branch_resolve_oversize_prefix")
+					h.noteStored(*dg, int64(lim))
+					delete(h.linked, h.linkKey(o.name))
+					break
+				}
 				if !manBeforeOK || vDigestOf(manBefore) != *dg {
 					h.out.L2("resolve-not-hash-of-file", h.caseLine, fmt.Sprintf("step=%d name=%s", i, o.name))
 				}
@@ -729,6 +847,9 @@ func (h *vHist) run(ops []vOp) (results []string, keys map[Digest]bool) {
 	}
 	return results, keys
 }
+
+// vReadLimit: the limit Resolve / Link pass to readAndSum, extracted from the source by the check
+func vReadLimit() int { return zzverif.EnvInt("VERIF_C08_RLIM", 1<<20) }
 
 // findFold: the manifest file (relative path) that name denotes under case folding, found by the driver's own
 // directory listing (independent of manifestPath); "" if none or the name is invalid.
@@ -772,7 +893,7 @@ func (h *vHist) checkLinks(step int, o vOp, res string) {
 	}
 	for i := 1; i < len(ms); i++ {
 		for j := 0; j < i; j++ {
-			if strings.EqualFold(ms[i], ms[j]) {
+			if strings.EqualFold(ms[i], ms[j]) && !h.handTwins[strings.ToLower(ms[i])] {
 				h.out.L2("case-twin-manifests", h.caseLine, fmt.Sprintf("step=%d op=%s %q %q", step, o.kind, ms[j], ms[i]))
 			}
 		}
@@ -898,6 +1019,17 @@ func vGenHist(r *zzverif.Rng) []vOp {
 			vOp{kind: "put", d: vDigestOf(b), size: 7, s: vMkScript(r, b, "exact", false)},
 			vOp{kind: "link", name: name, d: vDigestOf(b)}, vOp{kind: "get", d: vDigestOf(a)},
 			vOp{kind: "resolve", name: name}, vOp{kind: "unlink", name: name}, vOp{kind: "get", d: vDigestOf(a)})
+	case 4: // a stored, acknowledged blob; Put of the same digest under a negative size from a source that delivers nothing
+		c := contents[r.Range(1, len(contents)-1)]
+		d := vDigestOf(c)
+		ops = append(ops, vOp{kind: "put", d: d, size: int64(len(c)), s: vMkScript(r, c, "exact", false)},
+			vOp{kind: "putneg", d: d, size: vNegSize(r), s: vMkScript(r, nil, "exact", r.Bool())}, vOp{kind: "get", d: d})
+	case 5: // a manifest written behind the cache's back (no such blob): Resolve adopts it; then a second spelling
+		c := contents[r.Range(1, len(contents)-1)]
+		name := zzverif.Pick(r, []string{"h/n/m:t", "Host.x:80/Ns/Model:Tag", "a-b/n/m:t"})
+		ops = append(ops, vOp{kind: "edit", name: name, data: c}, vOp{kind: "resolve", name: strings.ToUpper(name)},
+			vOp{kind: "get", d: vDigestOf(c)}, vOp{kind: "edit", name: strings.ToUpper(name), data: contents[1]},
+			vOp{kind: "resolve", name: name}, vOp{kind: "unlink", name: name}, vOp{kind: "resolve", name: name})
 	case 0, 1: // a failed / partial earlier store of d, then Import of the true bytes, then Get / Link / Resolve
 		c := contents[r.Range(1, len(contents)-1)]
 		d := vDigestOf(c)
@@ -916,6 +1048,24 @@ func vGenHist(r *zzverif.Rng) []vOp {
 	}
 	for len(ops) < nops {
 		switch x := r.Intn(100); {
+		case x < 2:
+			d, c := pickD()
+			var sc vScript
+			switch r.Intn(4) {
+			case 0, 1:
+				sc = vMkScript(r, nil, "exact", true)
+			case 2:
+				sc = vMkScript(r, c, "exact", true)
+			default:
+				sc = vMkScript(r, c, "errk", true)
+			}
+			ops = append(ops, vOp{kind: "putneg", d: d, size: vNegSize(r), s: sc})
+		case x < 5:
+			data := r.Bytes(zzverif.Pick(r, []int{0, 1, 7, 12, 5}))
+			if r.Chance(1, 2) {
+				data = zzverif.Pick(r, contents)
+			}
+			ops = append(ops, vOp{kind: "edit", name: pickName(), data: data})
 		case x < 28:
 			d, c := pickD()
 			size := int64(len(c))
@@ -975,6 +1125,11 @@ func vGenHist(r *zzverif.Rng) []vOp {
 	return ops
 }
 
+// vNegSize: some negative int64 (the model does not distinguish them)
+func vNegSize(r *zzverif.Rng) int64 {
+	return zzverif.Pick(r, []int64{-1, -1, -2, -7, -1 << 40, -1 << 63})
+}
+
 // vWeirdDirs: cache directory names with glob metacharacters, spaces, a trailing dot, non-ASCII.  The cache's
 // behaviour must not depend on the PATH of its directory (the model has no such parameter, which is why L1 is exact
 // in these directories too); a share of the histories and the directed scenarios run in them.
@@ -999,7 +1154,7 @@ func vRunHist(t *testing.T, out *zzverif.Out, base string, idx int, caseLine str
 		t.Fatal(err)
 	}
 	defer os.RemoveAll(dir)
-	h := &vHist{t: t, out: out, c: c, dir: dir, caseLine: caseLine, stored: map[Digest]map[int64]bool{}, lastWriter: map[Digest]string{}, acked: map[Digest]bool{}, linked: map[string]Digest{}, linkedWhy: map[string]string{}}
+	h := &vHist{t: t, out: out, c: c, dir: dir, caseLine: caseLine, stored: map[Digest]map[int64]bool{}, lastWriter: map[Digest]string{}, acked: map[Digest]bool{}, linked: map[string]Digest{}, linkedWhy: map[string]string{}, handTwins: map[string]bool{}}
 	results, keys := h.run(ops)
 	out.Case(vHistLine(ops), strings.Join(results, ";")+" | "+h.dump(keys))
 	out.Count("cases")
@@ -1014,7 +1169,9 @@ func vHistLine(ops []vOp) string {
 	// which Link the model runs: 0 = pinned in-place, 1 = temp+rename (fix 834f6be9a), 2 = 1 + zero-length
 	// refusal (proposed_fixes/C08-F8-zero.patch); detected from the source by the check
 	variant := zzverif.EnvInt("VERIF_C08_FIXED", 0)
-	return fmt.Sprintf("hist %d %d %s", variant, len(ops), strings.Join(parts, " "))
+	// round 7: + is readAndSum strict (C08-F28.patch)?  is a negative size refused (C08-F29.patch)?  the read limit
+	return fmt.Sprintf("histl %d %d %d %d %d %s", variant, zzverif.EnvInt("VERIF_C08_STRICT", 0), zzverif.EnvInt("VERIF_C08_REFUSE", 0),
+		vReadLimit(), len(ops), strings.Join(parts, " "))
 }
 
 // ---------------------------------------------------------------- crash points (strace kill injection)
@@ -1146,7 +1303,8 @@ func vCrashRun(t *testing.T, dir string, cc vCrashCase, c *DiskCache, kind strin
 	return ""
 }
 
-func vGenCrash(r *zzverif.Rng) vCrashCase {
+// vGenCrash: force = "" (random kind) | "put" | "import" (a complete one: reaches the rename) | "chunk"
+func vGenCrash(r *zzverif.Rng, force string) vCrashCase {
 	n := r.Range(1, 14)
 	content := r.Bytes(n)
 	d := vDigestOf(content)
@@ -1161,12 +1319,24 @@ func vGenCrash(r *zzverif.Rng) vCrashCase {
 	default:
 		init = zzverif.Hex(content[:r.Intn(n)]) // a previous crash's partial file
 	}
-	switch x := r.Intn(10); {
+	x := r.Intn(10)
+	switch force {
+	case "put":
+		x = 0
+	case "import":
+		x = 7
+	case "chunk":
+		x = 9
+	}
+	switch {
 	case x < 7:
 		kind := zzverif.Pick(r, []string{"exact", "exact", "exact1", "exact1", "exact1", "short", "long", "flip", "errk", "other"})
 		return vCrashCase{content: content, init: init, op: vOp{kind: "put", d: d, size: int64(n), s: vMkScript(r, content, kind, false)}}
 	case x < 8:
 		kind := zzverif.Pick(r, []string{"exact", "exact1", "short", "errk"})
+		if force == "import" {
+			kind = zzverif.Pick(r, []string{"exact", "exact1"})
+		}
 		s := vMkScript(r, content, kind, false)
 		if s.end == "eof" && kind != "short" {
 			// the blob name is the digest of what is streamed
@@ -1802,6 +1972,178 @@ func vRunConc(t *testing.T, out *zzverif.Out, base string, caseLine string, cc *
 	out.Add("conc_events", len(events))
 }
 
+// ---------------------------------------------------------------- the read limit of Resolve / Link (round 7)
+
+// vRunReadSum: the real readAndSum over a small whole domain of (file length, limit): exact L1 against the model's
+// `readAndSum` (what is read is the first `limit` bytes, and only those are hashed; strict variant: error).
+func vRunReadSum(t *testing.T, out *zzverif.Out, base string) {
+	strict := zzverif.EnvInt("VERIF_C08_STRICT", 0)
+	file := filepath.Join(base, "readsum.bin")
+	defer os.Remove(file)
+	r := zzverif.NewRng(zzverif.Seed() ^ 0x5ead)
+	for n := 0; n <= 6; n++ {
+		content := r.Bytes(n)
+		if err := os.WriteFile(file, content, 0o666); err != nil {
+			t.Fatal(err)
+		}
+		for lim := 0; lim <= 7; lim++ {
+			data, d, err := readAndSum(file, int64(lim))
+			impl := vErrClass(err)
+			if err == nil {
+				impl = zzverif.Hex(data) + " " + vHexD(d)
+				// L2 (no model): the digest returned is the digest of the data returned, which is a prefix of the file,
+				// and the whole file whenever it fits
+				if vDigestOf(data) != d || !bytes.HasPrefix(content, data) || (n <= lim && len(data) != n) {
+					out.L2("readsum-inconsistent", fmt.Sprintf("readsum seed=%d :: n=%d lim=%d", zzverif.Seed(), n, lim), "digest/data/file disagree")
+				}
+			}
+			out.Case(fmt.Sprintf("readsum %d %d %s", strict, lim, zzverif.Hex(content)), impl)
+			out.Count("readsum_cases")
+			if n > lim {
+				out.Count("readsum_cases_over_limit")
+			}
+		}
+	}
+	if _, _, err := readAndSum(filepath.Join(base, "no-such-file"), 5); !errors.Is(err, fs.ErrNotExist) {
+		out.L2("readsum-inconsistent", "readsum :: missing file", fmt.Sprint(err))
+	}
+}
+
+// vRunEdge: manifests around the read limit that Resolve and Link pass to readAndSum (extracted from the source by
+// the check: VERIF_C08_RLIM), through the ordinary history runner: exact L1 (the oracle hashes the megabyte too) and
+// every L2 monitor.  Sizes limit-1, limit, limit+1, limit+k; the manifest gets there by Put+Link and by a write
+// behind the cache's back.
+func vRunEdge(t *testing.T, out *zzverif.Out, base string, idx int, cs uint64) {
+	r := zzverif.NewRng(cs)
+	lim := vReadLimit()
+	size := lim + []int{1, 0, -1, r.Range(2, 4096)}[idx%4]
+	c := r.Bytes(size)
+	d := vDigestOf(c)
+	e := r.Bytes(lim + r.Range(1, 9))
+	ops := []vOp{
+		{kind: "put", d: d, size: int64(size), s: vScript{chunks: [][]byte{c}, end: "eof", kind: "exact"}},
+		{kind: "link", name: "h/n/m:t", d: d}, {kind: "resolve", name: "H/n/m:t"}, {kind: "get", d: d},
+		{kind: "link", name: "h/n/m:t", d: d}, // already linked: the no-op test reads the manifest through readAndSum too
+		{kind: "edit", name: "a/n/m:t", data: e}, {kind: "resolve", name: "a/n/m:t"}, {kind: "get", d: vDigestOf(e)},
+		{kind: "get", d: vDigestOf(e[:lim])}, {kind: "link", name: "a/n/m:t", d: d}, {kind: "resolve", name: "a/n/m:t"},
+	}
+	out.Count(fmt.Sprintf("edge_cases_size_limit%+d", min(size-lim, 2)))
+	dir := filepath.Join(base, fmt.Sprintf("h%d", idx))
+	vRunHist(t, out, base, idx, fmt.Sprintf("edge seed=%d idx=%d :: manifest of %d bytes, read limit %d (ops regenerated from the seed)", cs, idx, size, lim), ops, dir)
+}
+
+// ---------------------------------------------------------------- Tie 1: facts about the tree, obtained by executing it
+
+// TestVerifC08Facts determines BY BEHAVIOUR (not by reading the source, so that a refactoring of Link / Resolve /
+// copyNamedFile cannot confuse it) which variant of the code is in the tree; the check turns the answers into
+// Generated/C08_LinkVariant.lean + Generated/C08_ReadLimit.lean and into the flags of the oracle's `histl` command:
+//   link_fixed     re-Link of a name to a different manifest of the SAME size takes effect (temp + rename; F8 fixed)
+//   link_zerocheck Link refuses a zero-length blob file whose digest is not that of the empty string (F8-zero fixed)
+//   resolve_limit  the largest manifest size that Resolve hashes completely (found by doubling + bisection)
+//   read_strict    a larger manifest is an error (C08-F28.patch) rather than cut
+//   link_limit     the largest manifest size for which Link's "already linked" test recognises the manifest (the link
+//                  file keeps its inode)
+//   neg_refused    Put under a negative size is an error that leaves the file alone (C08-F29.patch)
+func TestVerifC08Facts(t *testing.T) {
+	outDir := os.Getenv("VERIF_OUT")
+	if outDir == "" {
+		t.Skip("verification driver: run through /verif/check")
+	}
+	t.Setenv("TMPDIR", t.TempDir())
+	c, err := Open(filepath.Join(t.TempDir(), "cache"))
+	if err != nil {
+		t.Fatal(err)
+	}
+	b2i := func(b bool) int {
+		if b {
+			return 1
+		}
+		return 0
+	}
+	must := func(err error) {
+		t.Helper()
+		if err != nil {
+			t.Fatal(err)
+		}
+	}
+	a, b := []byte("aaaaaaa"), []byte("bbbbbbb")
+	must(PutBytes(c, vDigestOf(a), a))
+	must(PutBytes(c, vDigestOf(b), b))
+	must(c.Link("h/n/same:t", vDigestOf(a)))
+	c.Link("h/n/same:t", vDigestOf(b))
+	m, _ := os.ReadFile(filepath.Join(c.dir, "manifests", "h", "n", "same", "t"))
+	linkFixed := bytes.Equal(m, b)
+
+	dz := vDigestOf([]byte("never stored"))
+	must(os.WriteFile(c.GetFile(dz), nil, 0o666))
+	zeroCheck := errors.Is(c.Link("h/n/zero:t", dz), fs.ErrNotExist)
+
+	content := zzverif.NewRng(0xc08).Bytes(1<<23 + 8)
+	manifest := func(name string) string {
+		np, err := nameToPath(name)
+		must(err)
+		file := filepath.Join(c.dir, "manifests", np)
+		must(os.MkdirAll(filepath.Dir(file), 0o777))
+		return file
+	}
+	// whole(n): a manifest of n bytes resolves to the digest of all its bytes
+	resolveErr := false
+	whole := func(n int) bool {
+		must(os.WriteFile(manifest("h/n/probe:t"), content[:n], 0o666))
+		d, err := c.Resolve("h/n/probe:t")
+		resolveErr = err != nil
+		return err == nil && d == vDigestOf(content[:n])
+	}
+	// noop(n): Link of a name whose manifest (n bytes) already is the blob's content leaves the link file in place
+	noop := func(n int) bool {
+		file := manifest("h/n/probe2:t")
+		must(os.WriteFile(file, content[:n], 0o666))
+		must(PutBytes(c, vDigestOf(content[:n]), content[:n]))
+		before, err := os.Stat(file)
+		must(err)
+		must(c.Link("h/n/probe2:t", vDigestOf(content[:n])))
+		after, err := os.Stat(file)
+		must(err)
+		return os.SameFile(before, after)
+	}
+	// largest n in [1, 2^23] with p(n), assuming p is downward closed; 0 if p(1) fails or no bound was found
+	search := func(p func(int) bool) int {
+		if !p(1) {
+			return 0
+		}
+		lo := 1 // p(lo)
+		for lo < 1<<23 && p(lo*2) {
+			lo *= 2
+		}
+		if lo >= 1<<23 {
+			return 0
+		}
+		hi := lo * 2 // !p(hi)
+		for hi-lo > 1 {
+			mid := (lo + hi) / 2
+			if p(mid) {
+				lo = mid
+			} else {
+				hi = mid
+			}
+		}
+		return lo
+	}
+	resolveLimit := search(whole)
+	whole(resolveLimit + 1)
+	strict := resolveErr
+	linkLimit := search(noop)
+
+	must(PutBytes(c, vDigestOf(a), a))
+	nerr := c.Put(vDigestOf(a), bytes.NewReader(nil), -1)
+	left, _ := os.ReadFile(c.GetFile(vDigestOf(a)))
+	negRefused := nerr != nil && bytes.Equal(left, a)
+
+	facts := fmt.Sprintf("link_fixed=%d\nlink_zerocheck=%d\nresolve_limit=%d\nread_strict=%d\nlink_limit=%d\nneg_refused=%d\n",
+		b2i(linkFixed), b2i(zeroCheck), resolveLimit, b2i(strict), linkLimit, b2i(negRefused))
+	must(os.WriteFile(filepath.Join(outDir, "facts.txt"), []byte(facts), 0o666))
+}
+
 // ---------------------------------------------------------------- entry point
 
 func TestVerifC08(t *testing.T) {
@@ -1827,7 +2169,13 @@ func TestVerifC08(t *testing.T) {
 
 	phases := os.Getenv("VERIF_C08_PHASES")
 	if phases == "" {
-		phases = "hist,crash,conc,big"
+		phases = "hist,crash,conc,big,edge"
+	}
+	if strings.Contains(phases, "edge") {
+		vRunReadSum(t, out, base)
+		for i, n := 0, zzverif.EnvInt("VERIF_NEDGE", 3); i < n; i++ {
+			vRunEdge(t, out, base, i, root.U64())
+		}
 	}
 	if strings.Contains(phases, "hist") {
 		for i, n := 0, zzverif.EnvInt("VERIF_N", 300); i < n; i++ {
@@ -1866,8 +2214,10 @@ func TestVerifC08(t *testing.T) {
 				vRunCrashLink(t, out, base, fmt.Sprintf("crashlink seed=%d", cs), vGenCrashLink(zzverif.NewRng(cs)))
 				continue
 			}
-			cc := vGenCrash(zzverif.NewRng(cs))
-			vRunCrash(t, out, base, fmt.Sprintf("crash seed=%d", cs), cc)
+			// every ninth case is a complete Import (the only store with a rename), every ninth a chunk write
+			force := map[int]string{1: "import", 4: "chunk", 7: "put"}[i%9]
+			cc := vGenCrash(zzverif.NewRng(cs), force)
+			vRunCrash(t, out, base, fmt.Sprintf("crash seed=%d force=%s", cs, force), cc)
 		}
 	}
 }
@@ -1889,7 +2239,11 @@ func vReplay(t *testing.T, out *zzverif.Out, base, line string) {
 		cc := vGenConc(r)
 		vRunConc(t, out, base, fmt.Sprintf("conc seed=%d", cs), &cc, r)
 	case "crash":
-		vRunCrash(t, out, base, fmt.Sprintf("crash seed=%d", cs), vGenCrash(zzverif.NewRng(cs)))
+		force := ""
+		if len(head) > 2 && strings.HasPrefix(head[2], "force=") {
+			force = head[2][6:]
+		}
+		vRunCrash(t, out, base, fmt.Sprintf("crash seed=%d force=%s", cs, force), vGenCrash(zzverif.NewRng(cs), force))
 	case "big", "bigconc":
 		idx := 0
 		if len(head) > 2 && strings.HasPrefix(head[2], "idx=") {
@@ -1902,6 +2256,12 @@ func vReplay(t *testing.T, out *zzverif.Out, base, line string) {
 		}
 	case "crashlink":
 		vRunCrashLink(t, out, base, fmt.Sprintf("crashlink seed=%d", cs), vGenCrashLink(zzverif.NewRng(cs)))
+	case "edge":
+		idx := 0
+		if len(head) > 2 && strings.HasPrefix(head[2], "idx=") {
+			idx, _ = strconv.Atoi(head[2][4:])
+		}
+		vRunEdge(t, out, base, idx, cs)
 	default:
 		t.Fatalf("cannot replay %q", line)
 	}
